@@ -14,11 +14,13 @@ with the constants regenerated from the source (`genParams`).
 Finding 1 (DESIGN §6): the theorems need `leafNode.insert` to test `i < leaf.size` before
 `leaf.slots[i] == key`. The extractor reads that test from the source; `gen_params_valid` does not
 build while the guard is missing (and the suite reports `ordset-empty-key` with the input).
-Property theorems only; lemmas live in `Gsu/Proofs/Ordset.lean`, `Gsu/Proofs/Ranges.lean`.
+Property theorems only; lemmas live in `Gsu/Proofs/Ordset.lean`, `Gsu/Proofs/Ranges.lean`,
+`Gsu/Proofs/RangesIns.lean`, `Gsu/Proofs/RangesTree.lean` … `RangesTree6.lean`.
 -/
 import Gsu.Proofs.Ordset
 import Gsu.Proofs.Ranges
 import Gsu.Proofs.RangesIns
+import Gsu.Proofs.RangesTree6
 namespace Gsu.Props.C39
 open Gsu.Ordset
 
@@ -99,19 +101,35 @@ Full statement (DESIGN `ranges_contains_iff`, `ranges_disjoint_sorted`): after a
 `Insert(from ≤ to)` that did not return Full, `Contains v` ⟺ some inserted range covers `v`, and the
 stored slots are ascending, pairwise disjoint, with `tree.slots[ti].val = leaf_ti.slots[0].from`.
 
-Proved below:
+Proved below, all about the array mirror `Gsu.Ranges.Ranges.*` that the driver runs (stale slots,
+positions `(ti, li)` for the iterator, the write through the `prev` pointer, fuel = count + 1):
 * the *query* half for every state satisfying that invariant, leaf form and tree form, stale slots
   unconstrained (`ranges_contains_iff_partial`);
-* the *update* half for the leaf form (`tree == nil`): one `Insert` with room keeps the invariant and
-  adds exactly `[from, to]` to the covered set — through the mirror of `leaf.insert`, `iter.prev`,
-  the `prev` pointer, `merge`, `iter.remove` with its stale slots (`ranges_insert_leaf`) — hence both
-  statements for every history of at most `nodeSize` inserts (`ranges_contains_iff_leaf_partial`,
-  `ranges_disjoint_sorted_partial`).
-Missing: preservation of the invariant by `Insert` once the tree exists (split, the iterator
-crossing leaves, removal of emptied leaves, separator update). That part is tied by the
-correspondence only: the suite compares the whole arrays with the mirror and checks exactly this
-invariant (`c39inv`) and the coverage on the real structure after every `Insert`.
+* the *update* half for every such state (`ranges_insert_step`): one `Insert(f ≤ t)` either answers
+  Full — then nothing changed, the tree node has `nodeSize` leaves and the routed leaf is full — or
+  answers an increment `n ≤ 1`, the invariant holds again, the covered set grew by exactly `[f, t]`
+  and the number of stored ranges changed by `n`. This goes through `split` (three split points, the
+  leaf form → tree form transition, `treeNode.insert`, the repeated search), `leaf.insert`,
+  `iter.prev` (into the previous leaf: by the separator bound the slot found there never reaches
+  `f`, so `prev` stays the new slot), `iter.next`/`next2` across leaves, `merge`, `iter.remove` with
+  the removal of an emptied leaf from the tree node and the separator update when slot 0 goes;
+  in particular "overflow after split" cannot happen;
+* hence for every history from the zero value (`ranges_disjoint_sorted`, `ranges_contains_iff`,
+  `ranges_contains_iff_accepted`): the invariant always holds; `Contains v` ⟺ a range whose `Insert`
+  was not refused covers `v`; with no Full in the history ⟺ some inserted range covers `v`;
+* capacity (`ranges_full_capacity`, `ranges_nofull_of_length`, `ranges_contains_iff_capacity`): Full
+  needs `nodeSize` leaves one of which is full, i.e. at least `2·nodeSize − 1 = 255` stored ranges,
+  so histories shorter than `2·nodeSize = 256` never see Full. (This is the guaranteed capacity: an
+  adversary can merge leaves down to one range each, so the bound cannot be pushed near the nominal
+  `nodeSize²`; the theorems with the explicit no-Full hypothesis cover every longer history.)
+The older leaf-form results (`ranges_insert_leaf`, `ranges_contains_iff_leaf_partial`) are kept; they
+are now special cases. Not stated: nothing about `f > t` inserts (the code does not guard them; the
+checker never issues them).
 -/
+
+/-- (G) the split points of `ranges.split` lie strictly inside the node -/
+theorem gen_ranges_params_valid : Gsu.Ranges.genParams.Valid :=
+  ⟨by decide, by decide, by decide⟩
 
 /-- `Contains(v)` on any state satisfying the invariant (disjoint ascending slots per leaf,
 separators bounding the leaves, separator invariant) is true iff a stored range covers `v`. -/
@@ -139,13 +157,66 @@ theorem ranges_contains_iff_leaf_partial (ops : List (Key × Key)) (v : Key)
   rw [e, ranges_contains_flat Gsu.Ranges.genParams (.small l) v hok]
   exact hcov v
 
-/-- `ranges_disjoint_sorted` for histories of at most `nodeSize` inserts: the invariant holds
-(ascending, pairwise disjoint, `from ≤ to`; the separator clause is vacuous in the leaf form). -/
-theorem ranges_disjoint_sorted_partial (ops : List (Key × Key))
-    (hw : ∀ o ∈ ops, o.1 ≤ o.2) (hn : ops.length ≤ Gsu.Ranges.genParams.nodeSize) :
-    RangesOK Gsu.Ranges.genParams (runR Gsu.Ranges.genParams ops) := by
-  obtain ⟨l, e, hok, _⟩ := run_small Gsu.Ranges.genParams ops hw hn
-  rw [e]; exact hok
+/-- One `Insert(f ≤ t)` on any state satisfying the invariant (leaf form or tree form).
+Full: nothing changed, the tree node has `nodeSize` leaves and the leaf `f` routes to is full.
+Increment `n`: `n ≤ 1`, the invariant holds again, the covered set is the old one plus exactly
+`[f, t]`, and the number of stored ranges changed by `n`. -/
+theorem ranges_insert_step (rs : Ranges) (f t : Key) (hft : f ≤ t)
+    (h : RangesOK Gsu.Ranges.genParams rs) :
+    ((rs.insert Gsu.Ranges.genParams f t).2 = .full →
+        (rs.insert Gsu.Ranges.genParams f t).1 = rs ∧
+        ∃ tr, rs = .big tr ∧ Gsu.Ranges.genParams.nodeSize ≤ tr.length ∧
+          Gsu.Ranges.genParams.nodeSize ≤
+            (Gsu.Ranges.Tree.leafAt Gsu.Ranges.genParams tr (Gsu.Ranges.Tree.search tr f - 1)).size) ∧
+    (∀ n, (rs.insert Gsu.Ranges.genParams f t).2 = .inc n →
+        RangesOK Gsu.Ranges.genParams (rs.insert Gsu.Ranges.genParams f t).1 ∧
+        (∀ v, covL (rs.insert Gsu.Ranges.genParams f t).1.flat v ↔ (covL rs.flat v ∨ (f ≤ v ∧ v ≤ t))) ∧
+        ((rs.insert Gsu.Ranges.genParams f t).1.count : Int) = (rs.count : Int) + n ∧ n ≤ 1) :=
+  insert_ok Gsu.Ranges.genParams gen_ranges_params_valid rs f t hft h
+
+/-- `ranges_disjoint_sorted`: after every history of `Insert(from ≤ to)` from the zero value the
+invariant holds (per leaf ascending, pairwise disjoint, `from ≤ to`; separators bound the leaves;
+`tree.slots[ti].val = leaf_ti.slots[0].from`; no empty leaf; at most `nodeSize` leaves). -/
+theorem ranges_disjoint_sorted (ops : List (Key × Key)) (hw : ∀ o ∈ ops, o.1 ≤ o.2) :
+    RangesOK Gsu.Ranges.genParams (runR Gsu.Ranges.genParams ops) :=
+  (run_ok Gsu.Ranges.genParams gen_ranges_params_valid ops hw).1
+
+/-- `ranges_contains_iff`: after a history of `Insert(from ≤ to)` none of which answered Full,
+`Contains v` ⟺ some inserted range covers `v`. -/
+theorem ranges_contains_iff (ops : List (Key × Key)) (v : Key) (hw : ∀ o ∈ ops, o.1 ≤ o.2)
+    (hnf : NoFull Gsu.Ranges.genParams (Ranges.empty Gsu.Ranges.genParams) ops) :
+    (runR Gsu.Ranges.genParams ops).contains Gsu.Ranges.genParams v = true ↔
+      ∃ o ∈ ops, o.1 ≤ v ∧ v ≤ o.2 :=
+  run_contains_noFull Gsu.Ranges.genParams gen_ranges_params_valid ops hw hnf v
+
+/-- … and for every history, Full or not: `Contains v` ⟺ a range whose `Insert` was not refused
+covers `v` (a refused `Insert` changes nothing). -/
+theorem ranges_contains_iff_accepted (ops : List (Key × Key)) (v : Key) (hw : ∀ o ∈ ops, o.1 ≤ o.2) :
+    (runR Gsu.Ranges.genParams ops).contains Gsu.Ranges.genParams v = true ↔
+      ∃ o ∈ accepted Gsu.Ranges.genParams (Ranges.empty Gsu.Ranges.genParams) ops, o.1 ≤ v ∧ v ≤ o.2 :=
+  run_contains Gsu.Ranges.genParams gen_ranges_params_valid ops hw v
+
+/-- Capacity: `Insert` answers Full only on a tree node with `nodeSize` leaves holding at least
+`2·nodeSize − 1` ranges. -/
+theorem ranges_full_capacity (rs : Ranges) (f t : Key) (hft : f ≤ t)
+    (h : RangesOK Gsu.Ranges.genParams rs) (hf : (rs.insert Gsu.Ranges.genParams f t).2 = .full) :
+    Gsu.Ranges.genParams.nodeSize ≤ rs.nLeaves ∧ 2 * Gsu.Ranges.genParams.nodeSize ≤ rs.count + 1 := by
+  obtain ⟨_, tr, rfl, c1, c2⟩ :=
+    (insert_ok Gsu.Ranges.genParams gen_ranges_params_valid rs f t hft h).1 hf
+  exact ⟨c1, full_count Gsu.Ranges.genParams tr f h c1 c2⟩
+
+/-- … hence no history shorter than `2·nodeSize` (= 256) sees Full -/
+theorem ranges_nofull_of_length (ops : List (Key × Key)) (hw : ∀ o ∈ ops, o.1 ≤ o.2)
+    (hn : ops.length < 2 * Gsu.Ranges.genParams.nodeSize) :
+    NoFull Gsu.Ranges.genParams (Ranges.empty Gsu.Ranges.genParams) ops :=
+  noFull_of_length Gsu.Ranges.genParams gen_ranges_params_valid ops hw hn
+
+/-- `ranges_contains_iff` under the capacity hypothesis alone -/
+theorem ranges_contains_iff_capacity (ops : List (Key × Key)) (v : Key) (hw : ∀ o ∈ ops, o.1 ≤ o.2)
+    (hn : ops.length < 2 * Gsu.Ranges.genParams.nodeSize) :
+    (runR Gsu.Ranges.genParams ops).contains Gsu.Ranges.genParams v = true ↔
+      ∃ o ∈ ops, o.1 ≤ v ∧ v ≤ o.2 :=
+  ranges_contains_iff ops v hw (ranges_nofull_of_length ops hw hn)
 
 /-- `merge`: when `overlap` holds the merged slot covers exactly the union of the two -/
 theorem ranges_merge_covers (p n : Slot) (ho : overlap p n = true) (v : Key) :
@@ -177,6 +248,23 @@ example : RangesOK ⟨2, 1, 1, 1⟩
         by decide, by simp [Gsu.Ranges.Leaf.live]; decide⟩
   · simp [Gsu.Ranges.Before, Gsu.Ranges.Leaf.live]; decide
   · simp [Gsu.Ranges.Leaf.live]
+
+-- non-vacuity of the update theorems on a small instance (`nodeSize = 2`), evaluated by the kernel:
+-- the parameters are valid; a history of four inserts goes through the leaf form → tree form
+-- split (third insert) and a merge across two leaves with removal of slot 0 and separator update
+-- (fourth insert) without Full; the state is then a full tree node and the next `Insert` is Full.
+example : (⟨2, 1, 1, 1⟩ : Gsu.Ranges.Params).Valid := ⟨by decide, by decide, by decide⟩
+example : ∀ o ∈ [(([1] : Key), ([2] : Key)), ([5], [6]), ([8], [9]), ([3], [5])], o.1 ≤ o.2 := by decide
+example : NoFull ⟨2, 1, 1, 1⟩ (Ranges.empty ⟨2, 1, 1, 1⟩) [([1], [2]), ([5], [6]), ([8], [9]), ([3], [5])] := by
+  decide +kernel
+example : runR ⟨2, 1, 1, 1⟩ [([1], [2]), ([5], [6]), ([8], [9]), ([3], [5])] =
+    .big [⟨[], ⟨[⟨[1], [2]⟩, ⟨[3], [6]⟩], 2⟩⟩, ⟨[8], ⟨[⟨[8], [9]⟩, ⟨[8], [9]⟩], 1⟩⟩] := by decide +kernel
+example : (Ranges.insert ⟨2, 1, 1, 1⟩
+    (runR ⟨2, 1, 1, 1⟩ [([1], [2]), ([5], [6]), ([8], [9]), ([3], [5])]) [0] [0]).2 = .full := by decide +kernel
+-- and on the real constants: the hypotheses of `ranges_contains_iff_capacity` are met by any
+-- history of fewer than 256 well-formed ranges
+example : (runR Gsu.Ranges.genParams [([1], [2]), ([5], [6])]).contains Gsu.Ranges.genParams [5, 0] = true :=
+  (ranges_contains_iff_capacity _ _ (by decide) (by decide)).mpr ⟨([5], [6]), by simp, by decide⟩
 
 end ranges
 
